@@ -971,6 +971,7 @@ ssize_t qlisttbl_load(qlisttbl_t *tbl, const char *filepath, char sepchar,
     qlisttbl_lock(tbl);
     char *offset, *buf;
     int cnt = 0;
+    bool nomem = false;
     for (offset = str; *offset != '\0'; ) {
         // get one line into buf
         for (buf = offset; *offset != '\n' && *offset != '\0'; offset++);
@@ -985,7 +986,12 @@ ssize_t qlisttbl_load(qlisttbl_t *tbl, const char *filepath, char sepchar,
 
         // parse
         char *data = strdup(buf);
-        char *name  = _q_makeword(data, sepchar);
+        char *name  = (data != NULL) ? _q_makeword(data, sepchar) : NULL;
+        if (data == NULL || name == NULL) {
+            free(data);
+            nomem = true;
+            break;
+        }
         qstrtrim(data);
         qstrtrim(name);
         if (decode == true) qurl_decode(data);
@@ -993,13 +999,21 @@ ssize_t qlisttbl_load(qlisttbl_t *tbl, const char *filepath, char sepchar,
         // add to the table.
         if (qlisttbl_put(tbl, name, data, strlen(data) + 1) == true) {
             cnt++;
+        } else {
+            nomem = true;
         }
 
         free(name);
         free(data);
+        if (nomem == true) break;
     }
     qlisttbl_unlock(tbl);
     free(str);
+
+    if (nomem == true) {
+        errno = ENOMEM;
+        return -1;
+    }
 
     return cnt;
 }
